@@ -93,6 +93,93 @@ theorem inOf_setSlot (g : Graph) (i j : Nat) (s : Slot) (h : i < g.slots.length)
     (g.setSlot i s).inOf j = if j = i then s.inns else g.inOf j := by
   rw [inOf_eq, inOf_eq, slot_setSlot g i j s h]; split <;> rfl
 
+/-! ### counting node slots -/
+
+/-- number of slots that hold a node -/
+def nodeSlots (g : Graph) : Nat := (List.range g.slots.length).countP (fun i => g.isNode i)
+
+theorem countP_range_agree (p q : Nat → Bool) : ∀ n, (∀ j, j < n → q j = p j) →
+    (List.range n).countP q = (List.range n).countP p := by
+  intro n
+  induction n with
+  | zero => intro _; rfl
+  | succ n ih =>
+    intro h
+    rw [List.range_succ, List.countP_append, List.countP_append, ih (fun j hj => h j (by omega))]
+    simp [List.countP_cons, h n (by omega)]
+
+theorem countP_range_update (p q : Nat → Bool) (i : Nat) : ∀ n, (∀ j, j < n → j ≠ i → q j = p j) → i < n →
+    (List.range n).countP q + (if p i then 1 else 0) = (List.range n).countP p + (if q i then 1 else 0) := by
+  intro n
+  induction n with
+  | zero => intro _ h; omega
+  | succ n ih =>
+    intro h hi
+    rw [List.range_succ, List.countP_append, List.countP_append]
+    by_cases hin : i = n
+    · subst hin
+      rw [countP_range_agree p q i (fun j hj => h j (by omega) (by omega))]
+      simp only [List.countP_cons, List.countP_nil]
+      cases p i <;> cases q i <;> simp
+    · have hlt : i < n := by omega
+      have := ih (fun j hj hne => h j (by omega) hne) hlt
+      have hn : q n = p n := h n (by omega) (fun h' => hin h'.symm)
+      simp only [List.countP_cons, List.countP_nil, hn]
+      omega
+
+theorem countP_range_extend (p : Nat → Bool) (n : Nat) : ∀ m, n ≤ m → (∀ j, n ≤ j → j < m → p j = false) →
+    (List.range m).countP p = (List.range n).countP p := by
+  intro m
+  induction m with
+  | zero => intro h _; have : n = 0 := by omega
+            subst this; rfl
+  | succ m ih =>
+    intro h hf
+    by_cases hnm : n = m + 1
+    · subst hnm; rfl
+    · rw [List.range_succ, List.countP_append, ih (by omega) (fun j h1 h2 => hf j h1 (by omega))]
+      simp [List.countP_cons, hf m (by omega) (by omega)]
+
+theorem isNode_eq_of_kind {g g' : Graph} {j : Nat} (h : g'.kind j = g.kind j) : g'.isNode j = g.isNode j := by
+  cases h1 : g.isNode j
+  · cases h2 : g'.isNode j
+    · rfl
+    · have := (isNode_iff g' j).mp h2; rw [h] at this
+      have := (isNode_iff g j).mpr this; rw [h1] at this; cases this
+  · have := (isNode_iff g j).mp h1; rw [← h] at this
+    exact (isNode_iff g' j).mpr this
+
+/-- the node-slot count of `g'`, which differs from `g` in slot `i` only (and may be longer by free slots) -/
+theorem nodeSlots_update (g g' : Graph) (i : Nat) (hlen : g.slots.length ≤ g'.slots.length) (hi : i < g'.slots.length)
+    (hk : ∀ j, j ≠ i → g'.kind j = g.kind j) :
+    nodeSlots g' + (if g.kind i = .node then 1 else 0) = nodeSlots g + (if g'.kind i = .node then 1 else 0) := by
+  unfold nodeSlots
+  have hext : (List.range g'.slots.length).countP (fun j => g.isNode j) = (List.range g.slots.length).countP (fun j => g.isNode j) :=
+    countP_range_extend _ _ _ hlen (fun j h1 _ => by
+      cases h : g.isNode j
+      · rfl
+      · have := (isNode_iff g j).mp h; rw [kind_free_of_ge g j h1] at this; cases this)
+  have := countP_range_update (fun j => g.isNode j) (fun j => g'.isNode j) i g'.slots.length
+    (fun j _ hne => isNode_eq_of_kind (hk j hne)) hi
+  rw [hext] at this
+  have e1 : (if g.isNode i = true then 1 else 0) = (if g.kind i = .node then 1 else 0) := by
+    by_cases h : g.kind i = .node
+    · simp [h, (isNode_iff g i).mpr h]
+    · have : g.isNode i = false := by
+        cases h2 : g.isNode i
+        · rfl
+        · exact absurd ((isNode_iff g i).mp h2) h
+      simp [h, this]
+  have e2 : (if g'.isNode i = true then 1 else 0) = (if g'.kind i = .node then 1 else 0) := by
+    by_cases h : g'.kind i = .node
+    · simp [h, (isNode_iff g' i).mpr h]
+    · have : g'.isNode i = false := by
+        cases h2 : g'.isNode i
+        · rfl
+        · exact absurd ((isNode_iff g' i).mp h2) h
+      simp [h, this]
+  rw [← e1, ← e2]; exact this
+
 /-! ### well-formedness -/
 
 structure WF (g : Graph) : Prop where
@@ -104,9 +191,10 @@ structure WF (g : Graph) : Prop where
   in_nodup : ∀ n, (g.inOf n).Nodup
   free_nodup : g.free.Nodup
   free_iff : ∀ i, i ∈ g.free ↔ (0 < i ∧ i < g.slots.length ∧ g.kind i = .free)
+  count : g.nodeCount = (nodeSlots g : Int)
 
 theorem wf_empty : WF Graph.empty := by
-  refine ⟨by decide, by decide, ?_, ?_, ?_, ?_, by simp [Graph.empty], ?_⟩
+  refine ⟨by decide, by decide, ?_, ?_, ?_, ?_, by simp [Graph.empty], ?_, by decide⟩
   · intro n e
     have h1 : Graph.empty.outOf n = [] := by
       unfold outOf slot Graph.empty; cases n <;> simp [List.getD_eq_getElem?_getD]
@@ -223,7 +311,7 @@ theorem insertNode_spec (g : Graph) (w : WF g) :
   · intro n; rw [← h6 n]; unfold alloc; simp [setSlot]
   · have hoi : g.outOf i = [] := outOf_nil_of_not_node g i (by rw [h4]; simp)
     have hii : g.inOf i = [] := inOf_nil_of_not_node g i (by rw [h4]; simp)
-    refine ⟨?_, ?_, ?_, ?_, ?_, ?_, h10, ?_⟩
+    refine ⟨?_, ?_, ?_, ?_, ?_, ?_, h10, ?_, ?_⟩
     · show 0 < (g1.setSlot i _).slots.length
       rw [setSlot_length]; omega
     · rw [hk]; have : (0:Nat) ≠ i := by omega
@@ -285,6 +373,14 @@ theorem insertNode_spec (g : Graph) (w : WF g) :
         constructor
         · intro ⟨a, b, c⟩; exact ⟨a, by omega, c⟩
         · intro ⟨a, b, c⟩; exact ⟨a, h12 j b hj, c⟩
+    · have hu := nodeSlots_update g ({ (g1.setSlot i (Slot.node [] [])) with nodeCount := g1.nodeCount + 1 } : Graph) i
+        (by show g.slots.length ≤ (g1.setSlot i _).slots.length; rw [setSlot_length]; exact h11)
+        (by show i < (g1.setSlot i _).slots.length; rw [setSlot_length]; exact h3)
+        (fun j hj => by rw [hk]; simp [hj])
+      rw [hk, h4] at hu
+      simp only [if_true, reduceCtorEq, if_false, Nat.add_zero] at hu
+      show g1.nodeCount + 1 = ((nodeSlots _ : Nat) : Int)
+      rw [hu, h7, w.count]; simp
 
 /-! ### chain updates -/
 
@@ -381,7 +477,7 @@ theorem insertEdge_spec (g : Graph) (w : WF g) (s d : Nat) (hs : g.kind s = .nod
       intro n hm; obtain ⟨d', hd'⟩ := (w.out_iff n i).mp hm; rw [h4] at hd'; simp at hd'
     have hini : ∀ n, i ∉ g.inOf n := by
       intro n hm; obtain ⟨d', hd'⟩ := (w.in_iff n i).mp hm; rw [h4] at hd'; simp at hd'
-    refine ⟨?_, ?_, ?_, ?_, ?_, ?_, ?_, ?_⟩
+    refine ⟨?_, ?_, ?_, ?_, ?_, ?_, ?_, ?_, ?_⟩
     · rw [hl4, hl3]; simp [g2]; omega
     · rw [hK]; have : (0:Nat) ≠ i := by omega
       simp [this, w.slot0]
@@ -424,6 +520,14 @@ theorem insertEdge_spec (g : Graph) (w : WF g) (s d : Nat) (hs : g.kind s = .nod
         constructor
         · intro ⟨a, b, c⟩; exact ⟨a, by omega, c⟩
         · intro ⟨a, b, c⟩; exact ⟨a, h12 j b hj, c⟩
+    · have hu := nodeSlots_update g ((g2.addOut s i).addIn d i) i
+        (by rw [hl4, hl3]; simp only [g2, setSlot_length]; exact h11)
+        (by rw [hl4, hl3]; simp only [g2, setSlot_length]; exact h3)
+        (fun j hj => by rw [hK]; simp [hj])
+      rw [hK, h4] at hu
+      simp only [if_true, reduceCtorEq, if_false, Nat.add_zero] at hu
+      rw [hc4, hc3]; show g1.nodeCount = _
+      rw [h7, w.count, hu]
 
 theorem insertEdge_error (g : Graph) (s d : Nat) (h : ¬ (g.kind s = .node ∧ g.kind d = .node)) :
     g.insertEdge s d = .error Err.graphInvalidIndex := by
@@ -459,10 +563,11 @@ theorem WF.free_of_obs {g g' : Graph} (w : WF g) (i : Nat)
     (hk : ∀ j, g'.kind j = if j = i then .free else g.kind j)
     (ho : ∀ n, (g'.outOf n).Nodup ∧ ∀ e, e ∈ g'.outOf n ↔ (e ≠ i ∧ e ∈ g.outOf n))
     (hi : ∀ n, (g'.inOf n).Nodup ∧ ∀ e, e ∈ g'.inOf n ↔ (e ≠ i ∧ e ∈ g.inOf n))
-    (hf : g'.free = i :: g.free) (hl : g'.slots.length = g.slots.length) : WF g' := by
+    (hf : g'.free = i :: g.free) (hl : g'.slots.length = g.slots.length)
+    (hc : g'.nodeCount = g.nodeCount - (if g.kind i = .node then 1 else 0)) : WF g' := by
   have hi0 : i ≠ 0 := by intro h; subst h; exact hlive w.slot0
   have hil : i < g.slots.length := lt_of_kind_ne_free g i hlive
-  refine ⟨by rw [hl]; exact w.len_pos, ?_, ?_, ?_, fun n => (ho n).1, fun n => (hi n).1, ?_, ?_⟩
+  refine ⟨by rw [hl]; exact w.len_pos, ?_, ?_, ?_, fun n => (ho n).1, fun n => (hi n).1, ?_, ?_, ?_⟩
   · rw [hk]; simp [Ne.symm hi0, w.slot0]
   · intro n e
     rw [(ho n).2 e, hk, w.out_iff n e]
@@ -481,6 +586,13 @@ theorem WF.free_of_obs {g g' : Graph} (w : WF g) (i : Nat)
     by_cases hj : j = i
     · subst hj; simp; omega
     · simp [hj]
+  · have hu := nodeSlots_update g g' i (by omega) (by omega) (fun j hj => by rw [hk]; simp [hj])
+    rw [hk] at hu
+    simp only [if_true, reduceCtorEq, if_false, Nat.add_zero] at hu
+    rw [hc, w.count]
+    by_cases hn : g.kind i = .node
+    · simp only [hn, if_true] at hu ⊢; omega
+    · simp only [hn, if_false] at hu ⊢; omega
 
 theorem removeEdge_spec (g : Graph) (w : WF g) (e s d : Nat) (he : g.kind e = .edge s d) :
     let g' := g.removeEdge e
@@ -531,7 +643,7 @@ theorem removeEdge_spec (g : Graph) (w : WF g) (e s d : Nat) (he : g.kind e = .e
       · subst hjd; simp only [if_true]; rw [hi1]; simp only [hx]
       · simp only [hjd, if_false]; rw [hi1]; simp only [hx]
   refine ⟨hK, alloc_cons g _ e hF hL, by rw [hc3, hc2, hc1], ?_⟩
-  refine WF.free_of_obs w e (by rw [he]; simp) hK ?_ ?_ hF hL
+  refine WF.free_of_obs w e (by rw [he]; simp) hK ?_ ?_ hF hL (by rw [hc3, hc2, hc1, he]; simp)
   · intro n; rw [hO]
     by_cases hn : n = s
     · subst hn; simp only [if_true]
@@ -587,7 +699,7 @@ theorem removeNode_spec (g : Graph) (w : WF g) (n : Nat) (hn : g.kind n = .node)
   simp only [List.foldl_nil, hslot]
   obtain ⟨hk3, ho3, hi3, hf3, hl3, hc3⟩ := freeSlot_obs g n hnl
   refine ⟨hk3, alloc_cons g _ n hf3 hl3, by simp [hc3], ?_⟩
-  refine WF.free_of_obs w n (by rw [hn]; simp) hk3 ?_ ?_ hf3 hl3
+  refine WF.free_of_obs w n (by rw [hn]; simp) hk3 ?_ ?_ hf3 hl3 (by simp [hc3, hn])
   · intro m
     show ((g.freeSlot n).outOf m).Nodup ∧ ∀ e, e ∈ (g.freeSlot n).outOf m ↔ _
     rw [ho3]
